@@ -7,18 +7,21 @@ package couchbase
 //@ pure lexGreater(a1 int, a2 int, a3 int, a4 int, b1 int, b2 int, b3 int, b4 int) bool = a1 > b1 || a1 == b1 && (a2 > b2 || a2 == b2 && (a3 > b3 || a3 == b3 && a4 > b4))
 
 //@ func (*Version).Equal
+//@ params v ov
 //@ props C18
 //@ requires v != nil && ov != nil
 //@ ensures.eq[C18] result == (v.Major == ov.Major && v.Minor == ov.Minor && v.Patch == ov.Patch && v.Build == ov.Build)
 //@ modifies nothing
 
 //@ func (*Version).Higher
+//@ params v ov
 //@ props C18
 //@ requires v != nil && ov != nil
 //@ ensures.lex[C18] result == lexGreater(v.Major, v.Minor, v.Patch, v.Build, ov.Major, ov.Minor, ov.Patch, ov.Build)
 //@ modifies nothing
 
 //@ func (*Version).Lower
+//@ params v ov
 //@ props C18
 //@ requires v != nil && ov != nil
 //@ ensures.lex[C18] result == lexGreater(ov.Major, ov.Minor, ov.Patch, ov.Build, v.Major, v.Minor, v.Patch, v.Build)
@@ -27,6 +30,7 @@ package couchbase
 // ---------- rollback mitigation (C07) ----------
 
 //@ func (*rollbackMitigation).getMinSeqNo
+//@ params r vbID
 //@ props C07
 //@ requires r != nil && r.persistedSeqNos != nil
 //@ requires forall j int :: 0 <= j && j < len(r.persistedSeqNos[vbID]) ==> r.persistedSeqNos[vbID][j] != nil
@@ -49,18 +53,21 @@ package couchbase
 //@ modifies nothing
 
 //@ func (*vbUUIDAndSeqNo).IsOutdated
+//@ params v last
 //@ props C07
 //@ requires v != nil && last != nil
 //@ ensures.outdated[C07] result == (!v.absent && (v.vbUUID != last.VbUUID || v.seqNo != last.PersistSeqNo))
 //@ modifies nothing
 
 //@ func (*observer).SetPersistSeqNo
+//@ params so persistSeqNo
 //@ props C07
 //@ requires so != nil
 //@ ensures.monotone[C07] so.persistSeqNo == ite(persistSeqNo != 0 && persistSeqNo > old(so.persistSeqNo), persistSeqNo, old(so.persistSeqNo))
 //@ modifies so.persistSeqNo
 
 //@ func (*observer).needCatchup
+//@ params so seqNo
 //@ props C08
 //@ requires so != nil
 //@ ensures.done[C08] !old(so.isCatchupNeed) ==> result == false && so.isCatchupNeed == false
@@ -70,18 +77,21 @@ package couchbase
 //@ modifies so.isCatchupNeed
 
 //@ func (*observer).SetCatchup
+//@ params so seqNo
 //@ props C08
 //@ requires so != nil
 //@ ensures.set[C08] so.catchupSeqNo == seqNo && so.isCatchupNeed == true
 //@ modifies so.catchupSeqNo, so.isCatchupNeed
 
 //@ func (*observer).SetVbUUID
+//@ params so vbUUID
 //@ props C06 C08
 //@ requires so != nil
 //@ ensures.set so.vbUUID == vbUUID
 //@ modifies so.vbUUID
 
 //@ func nodeVersionFromString
+//@ params version
 //@ props C18
 //@ let n = splitlen(version, ".")
 //@ let p0 = splitat(version, ".", 0)
@@ -103,17 +113,20 @@ package couchbase
 // the frame scan const-globals checks that nothing else can write them (engine/globals.go).
 
 //@ func (*BucketInfo).IsMagma
+//@ params b
 //@ props C18
 //@ requires b != nil
 //@ ensures.magma[C18] result == (b.StorageBackend == "magma")
 //@ modifies nothing
 
 //@ func NewHTTPClient
+//@ params config client
 //@ props C18
 //@ ensures result != nil
 //@ modifies nothing
 
 //@ func NewClient
+//@ params config
 //@ trusted
 //@ ensures result != nil
 //@ modifies nothing
